@@ -612,7 +612,36 @@ pub fn run(ctx: &Ctx, sh: &mut Shard) {
         let mut r = Rng::derive(ctx.seed, ctx.shard, k);
         let g = *r.pick(&[3i64, 4, 4, 5, 6, 8]);
         let (a, class) = mutate(&mut r, g);
-        if a.n_segments() > 80 {
+        // one case in 60: a polygon / multipolygon of realistic size (star, hole grid, checkerboard, fan of triangles) -
+        // valid by construction or not, the oracle decides - now and then with one vertex moved
+        let (a, class) = if k % 60 == 9 {
+            let (x, cls) = loop {
+                let (x, cls) = gen_large(&mut r);
+                if matches!(x, IG::Polygon(_) | IG::MultiPolygon(_)) {
+                    break (x, cls);
+                }
+            };
+            let x = if r.chance(1, 3) {
+                match x {
+                    IG::Polygon(mut rings) => {
+                        let i = r.below(rings.len() as u64) as usize;
+                        let n = rings[i].len();
+                        if n >= 4 {
+                            let j = 1 + r.below((n - 2) as u64) as usize;
+                            rings[i][j] = (rings[i][j].0 + r.range(-12, 12), rings[i][j].1 + r.range(-12, 12));
+                        }
+                        IG::Polygon(rings)
+                    }
+                    o => o,
+                }
+            } else {
+                x
+            };
+            (x, cls)
+        } else {
+            (a, class)
+        };
+        if a.n_segments() > 700 {
             continue;
         }
         // an empty interior ring now and then (geo skips it; the positions of the other rings in reported errors must
